@@ -105,6 +105,8 @@ type Obligation struct {
 	Pos    token.Position
 	Cover  bool // must be satisfiable (vacuity guard)
 	MustFail bool // must NOT be provable (vacuity guard over all facts)
+	ExitCover bool // reachability of one return: `unsat` is reported as a note (dead or vacuous path)
+	SiteCover bool // reachability of an asserted call site: `unsat` means the protocol obligation there is vacuous
 	ThoroughOnly bool // solved in the thorough tier only (deferred in quick)
 	Splits []T    // optional case split of PC (disjunction equals PC): each case may be proved separately
 	Detail string
